@@ -140,7 +140,7 @@ def _scr(f):
     return np.asarray(f, dtype=np.float64).ravel()[::-1] * 2.0 + 1.0
 
 
-def _module(M, bi, qs, key, **kw):
+def _module(M, bi, qs, key, force=None, **kw):
     """the module under test.  For about one input in three (decided by the input's content, so that a replay reproduces it)
     the instance is first constructed with OTHER filters of the same lengths and then takes over the state of an
     instance constructed as requested through load_state_dict, followed by a dtype round trip that is exact for its
@@ -148,8 +148,8 @@ def _module(M, bi, qs, key, **kw):
     right = M(biort=bi, qshift=qs, **kw)
     import os
     from .impl_dwt import _u
-    u = _u(key, 'adopt')
-    if os.environ.get('VERIF_NO_TWINS') == '1' or u >= 0.45:
+    u = {'adopt': 0.0, 'deferred': 0.4}[force] if force else _u(key, 'adopt')
+    if (force is None and os.environ.get('VERIF_NO_TWINS') == '1') or u >= 0.45:
         return right
     if u >= 0.34:
         from .impl_dwt import deferred
